@@ -498,6 +498,12 @@ func (ca *clusterAdmin) AlterPartitionReassignments(topic string, assignment [][
 			errs = append(errs, err)
 		} else {
 			if rsp.ErrorCode > 0 {
+				if rsp.ErrorCode == ErrNotController {
+					// stale controller: look it up again and let retryOnError try there,
+					// like the other controller-bound operations do
+					_, _ = ca.refreshController()
+					return rsp.ErrorCode
+				}
 				errs = append(errs, errors.New(rsp.ErrorCode.Error()))
 			}
 
